@@ -12,8 +12,20 @@ MARKERS = [PGP, PGPMSG, X509, SSH]
 ZERO_TS = -62135596800
 
 
-def rhash(rng, n=40):
-    return rbytes(rng, n, HEXL)
+DEFAULT_HL = [40]
+
+
+def rhash(rng, n=None):
+    return rbytes(rng, DEFAULT_HL[0] if n is None else n, HEXL)
+
+
+def _with_hl(f, rng, bucket, hl):
+    """run a raw generator with object ids of hl hex digits (64 = SHA-256 repository)"""
+    DEFAULT_HL[0] = hl
+    try:
+        return f(rng, bucket)
+    finally:
+        DEFAULT_HL[0] = 40
 
 
 def word(rng, lo=1, hi=8, alpha=b"abcdefghijXYZ01"):
@@ -167,8 +179,10 @@ def assemble(groups, msg, blank=True):
     return b"".join(b"".join(ls) for _, ls in groups) + (b"\n" if blank else b"") + msg
 
 
-def raw_commit(rng, bucket):
+def raw_commit(rng, bucket, hl=40):
     """-> bytes.  buckets: canonical permuted dups sigs oddident oddhdr eofhdr trunc junk"""
+    if hl != 40:
+        return _with_hl(raw_commit, rng, bucket, hl)
     if bucket == "canonical":
         return assemble(commit_headers(rng), message(rng, rng.choice(["plain", "plain", "nolf", "blanktail", "headerlike", "marker"])))
     if bucket == "oddident":
@@ -284,7 +298,9 @@ def tag_body(rng, nsigblocks=None):
     return out
 
 
-def raw_tag(rng, bucket):
+def raw_tag(rng, bucket, hl=40):
+    if hl != 40:
+        return _with_hl(raw_tag, rng, bucket, hl)
     if bucket == "canonical":
         return assemble(tag_headers(rng), tag_body(rng))
     if bucket == "oddident":
